@@ -1772,18 +1772,24 @@ class AstEval:
         if isinstance(arg.ctx, ast.Load):
             return await self.eval_elt_list(arg.elts)
 
-    async def loopvar_scope_save(self, generators):
-        """Return current scope variables that match looping target vars."""
-        #
-        # looping variables are in their own implicit nested scope, so save/restore
-        # variables in the current scope with the same names
-        #
+    async def loopvar_names(self, generators):
+        """Return the names of the looping target vars."""
         lvars = set()
         for gen in generators:
             await self.get_names(
                 ast.Assign(targets=[gen.target], value=ast.Constant(value=None)), local_names=lvars
             )
-        return lvars, {var: self.sym_table[var] for var in lvars if var in self.sym_table}
+        return lvars
+
+    async def loopvar_scope_save(self, generators):
+        """Remove and return current scope variables that match looping target vars."""
+        #
+        # looping variables are in their own implicit nested scope, so save/restore
+        # variables in the current scope with the same names; they are removed while
+        # the comprehension runs so the looping variables never alias them
+        #
+        lvars = await self.loopvar_names(generators)
+        return lvars, {var: self.sym_table.pop(var) for var in lvars if var in self.sym_table}
 
     async def loopvar_scope_restore(self, var_names, save_vars):
         """Restore current scope variables that match looping target vars."""
@@ -1798,11 +1804,11 @@ class AstEval:
                     # assigned to, so deleting them will fail.
                     pass
 
-    async def listcomp_loop(self, generators, elt):
+    async def listcomp_loop(self, generators, elt, first_iter=None):
         """Recursive list comprehension."""
         out = []
         gen = generators[0]
-        for loop_var in await self.aeval(gen.iter):
+        for loop_var in first_iter[0] if first_iter else await self.aeval(gen.iter):
             await self.recurse_assign(gen.target, loop_var)
             for cond in gen.ifs:
                 if not await self.aeval(cond):
@@ -1816,9 +1822,11 @@ class AstEval:
 
     async def ast_listcomp(self, arg):
         """Evaluate list comprehension."""
+        # the first iterable is evaluated in the enclosing scope
+        first_iter = [await self.aeval(arg.generators[0].iter)]
         target_vars, save_values = await self.loopvar_scope_save(arg.generators)
         try:
-            return await self.listcomp_loop(arg.generators, arg.elt)
+            return await self.listcomp_loop(arg.generators, arg.elt, first_iter)
         finally:
             await self.loopvar_scope_restore(target_vars, save_values)
 
@@ -1845,11 +1853,11 @@ class AstEval:
         val.update(pairs)
         return val
 
-    async def dictcomp_loop(self, generators, key, value):
+    async def dictcomp_loop(self, generators, key, value, first_iter=None):
         """Recursive dict comprehension."""
         out = {}
         gen = generators[0]
-        for loop_var in await self.aeval(gen.iter):
+        for loop_var in first_iter[0] if first_iter else await self.aeval(gen.iter):
             await self.recurse_assign(gen.target, loop_var)
             for cond in gen.ifs:
                 if not await self.aeval(cond):
@@ -1867,9 +1875,11 @@ class AstEval:
 
     async def ast_dictcomp(self, arg):
         """Evaluate dict comprehension."""
+        # the first iterable is evaluated in the enclosing scope
+        first_iter = [await self.aeval(arg.generators[0].iter)]
         target_vars, save_values = await self.loopvar_scope_save(arg.generators)
         try:
-            return await self.dictcomp_loop(arg.generators, arg.key, arg.value)
+            return await self.dictcomp_loop(arg.generators, arg.key, arg.value, first_iter)
         finally:
             await self.loopvar_scope_restore(target_vars, save_values)
 
@@ -1880,11 +1890,11 @@ class AstEval:
             ret.add(elt)
         return ret
 
-    async def setcomp_loop(self, generators, elt):
+    async def setcomp_loop(self, generators, elt, first_iter=None):
         """Recursive list comprehension."""
         out = set()
         gen = generators[0]
-        for loop_var in await self.aeval(gen.iter):
+        for loop_var in first_iter[0] if first_iter else await self.aeval(gen.iter):
             await self.recurse_assign(gen.target, loop_var)
             for cond in gen.ifs:
                 if not await self.aeval(cond):
@@ -1898,9 +1908,11 @@ class AstEval:
 
     async def ast_setcomp(self, arg):
         """Evaluate set comprehension."""
+        # the first iterable is evaluated in the enclosing scope
+        first_iter = [await self.aeval(arg.generators[0].iter)]
         target_vars, save_values = await self.loopvar_scope_save(arg.generators)
         try:
-            return await self.setcomp_loop(arg.generators, arg.elt)
+            return await self.setcomp_loop(arg.generators, arg.elt, first_iter)
         finally:
             await self.loopvar_scope_restore(target_vars, save_values)
 
@@ -2116,10 +2128,6 @@ class AstEval:
                         for name in await self.get_target_names(item.optional_vars):
                             local_names.add(name)
                             names.add(name)
-            elif cls_name in {"ListComp", "DictComp", "SetComp"}:
-                target_vars, _ = await self.loopvar_scope_save(arg.generators)
-                for name in target_vars:
-                    local_names.add(name)
             elif cls_name == "Try":
                 for handler in arg.handlers:
                     if handler.name is not None:
